@@ -148,6 +148,10 @@ class PduReceived(PbMessageWrapper):
     def from_packet(packet):
         """Convert scapy packet to a PduReceived message
         """
+        # We need a 802.15.4 MAC layer
+        if Dot15d4 not in packet:
+            return None
+
         # Create a PduReceived message
         msg = PduReceived(
             channel=packet.metadata.channel,
@@ -234,11 +238,22 @@ class RawPduReceived(PbMessageWrapper):
     def from_packet(packet):
         """Convert packet to a RawPduReceived message.
         """
+        # Extract PDU and FCS from the frame bytes (Dot15d4Raw is what to_packet()
+        # produces for frames scapy cannot dissect)
+        if Dot15d4FCS in packet:
+            frame = bytes(packet[Dot15d4FCS])
+        elif Dot15d4Raw in packet:
+            frame = bytes(packet[Dot15d4Raw])
+        else:
+            return None
+        if len(frame) < 2:
+            return None
+
         # Create a PduReceived message
         msg = RawPduReceived(
             channel=packet.metadata.channel,
-            pdu=bytes(packet.getlayer(Dot15d4FCS))[:-2],
-            fcs=packet.fcs
+            pdu=frame[:-2],
+            fcs=unpack("<H", frame[-2:])[0]
         )
 
         # Add optional metadata
